@@ -122,6 +122,22 @@ class SideResolver:
         return out
 
 
+def _def_tokens(prog, side, e, depth=3):
+    from ..util import var_def_expr
+    out = set()
+    if depth <= 0:
+        return out
+    for v in set(expr_vars(e)):
+        sd = side
+        while sd is not None:
+            d = var_def_expr(sd.fv, v, depth=30)
+            if d is not None and d != ("var", v):
+                out |= expr_tokens(prog, d) | _def_tokens(prog, sd, d, depth - 1)
+                break
+            sd = sd.parent
+    return out
+
+
 def parse_chain(prog, fv, e, side, flip=False, out=None, problems=None):
     """Parse an Ordering-valued expression into steps [(a_expr, b_expr, flipped, fv, side, ga)]."""
     out = [] if out is None else out
@@ -228,6 +244,11 @@ def extract_order(prog, key):
             d = "desc" if d == "asc" else "asc"
         ta, tb = expr_tokens(prog, a), expr_tokens(prog, b)
         ca, cb = classify_tokens(ta), classify_tokens(tb)
+        if not ca or not cb:
+            # the operands are named locals (`let self_id = ..; self_id.cmp(&other_id)`), possibly of the enclosing body and
+            # captured by the then_with closure: what they are is what their definitions compute
+            ta, tb = ta | _def_tokens(prog, sside, a), tb | _def_tokens(prog, sside, b)
+            ca, cb = classify_tokens(ta), classify_tokens(tb)
         # a RibEntry::cmp deferral
         is_defer = any(re.search(r"RibEntry as std::cmp::Ord>::cmp", t) for t in (cmpname,))
         res.append({"a": show(a, 80), "b": show(b, 80), "dir": d, "concept_a": ca, "concept_b": cb, "cmp": cmpname,
